@@ -228,6 +228,14 @@ def history_cmds(rng, toks, h):
         # a string that was longer for a while (separately allocated storage from then on) and is set back to its bytes
         for p, x in rng.sample(strs, min(len(strs), rng.choice([1, 2]))):
             out += ["NAV %d 5 %s" % (h, " ".join(p)), "SSTR 5 x" + (x + b"-grown-for-a-while-" * rng.choice([1, 3, 20])).hex(), "SSTR 5 x" + x.hex()]
+    dbls = [p for p, x in paths(v) if isinstance(x, float) and x == x]
+    if dbls and rng.random() < 0.5:
+        # a double set (in place) to the value it already has: if it carried its source text, it no longer does; the value is the same
+        for p in rng.sample(dbls, min(len(dbls), 2)):
+            x = v
+            for st in p:
+                x = x[int(st[1:])] if st[0] == "i" else x[bytes.fromhex(st[1:])]
+            out += ["NAV %d 5 %s" % (h, " ".join(p)), "SET 5 dbl %016x" % dbits(x)]
     if not cand:
         return out
     for p, x in rng.sample(cand, min(len(cand), rng.choice([1, 1, 2]))):
@@ -318,6 +326,19 @@ def shard_fn(shard, nshards, seed, tier, exe, npairs, ncopies):
         cmds += ["PUT %d" % side] + (["KSCR 1"] if scr else []) + ["D %d" % (1 - side), "S %d 0" % (1 - side)] + (["KSCR 0"] if scr else []) + ["PUT %d" % (1 - side)]
         cases.append((cid, cmds))
         meta[cid] = ("copy", side, a, bool(mc), len(mc or []), nh, int(scr))
+    # copies of nodes that use the library's userdata serializer with a deleter of the caller's: the copy gets its own string and the SAME deleter
+    udmeta = {}
+    for j in range(max(8, ncopies // nshards // 40)):
+        a = tree(0.0)
+        va = toks_to_value(a)
+        cand = [p for p, x in paths(va) if x is not None]
+        if va is None or not cand:
+            continue
+        p = rng.choice(cand)
+        cid = "%d.u%d" % (shard, j)
+        cmds = ["B 0 " + " ".join(a), "NAV 0 5 " + " ".join(p), "SS 5 0 4", "S 0 0", "DCOPY 0 1 0", "S 1 0", "PUT 1", "S 0 0", "PUT 0"]
+        cases.append((cid, cmds))
+        udmeta[cid] = True
     results, crashes = core.run_script(exe, cases, tag="c09", env=core.ambient_env(sh, shard))
     cmdmap = dict(cases)
     for cr in crashes:
@@ -326,6 +347,26 @@ def shard_fn(shard, nshards, seed, tier, exe, npairs, ncopies):
         sh.violation("C09/%s/%s/%s" % (kind_, frame, meta[cr.cid][0]), "memory error (%s) at command #%d %s" % (kind_, i, cmdmap[cr.cid][i][:80]),
                      {"driver": "jcdrv", "variant": "asan", "script": cmdmap[cr.cid], "stderr": cr.stderr[-2500:]})
     for cid, lines in results.items():
+        if cid in udmeta:
+            cmds = cmdmap[cid]
+            rep = {"driver": "jcdrv", "variant": "asan", "script": cmds}
+            sh.evaluations += 4
+            key = None
+            if int(lines[4].split()[1]) != 0:
+                key, what = "copy-failed", "deep copy of a tree with a userdata-serialized node returned %s" % lines[4].split()[1]
+            elif lines[5] != lines[3] or lines[7] != lines[3]:
+                key, what = "copy-serializes-differently", "source / copy / source-after-copy-destroyed serialize differently"
+            elif "del=4242" not in lines[6].replace("del=4242,", "del=4242 ") or lines[6].count("4242") != 1:
+                key, what = "copy-deleter", "destroying the copy called the caller's userdata deleter %d time(s): %s" % (lines[6].count("4242"), lines[6][:80])
+            elif lines[8].count("4242") != 1:
+                key, what = "copy-deleter", "destroying the source called the caller's userdata deleter %d time(s)" % lines[8].count("4242")
+            elif lines[-1].split()[1] != "live=0":
+                key, what = "leak", "blocks left: " + lines[-1]
+            if key:
+                sh.violation("C09/userdata-serializer/" + key, what, rep)
+            sh.count("copies.of_userdata_serialized_nodes")
+            sh.nontrivial("\n".join(cmds[:3]))
+            continue
         m = meta[cid]
         cmds = cmdmap[cid]
         rep = {"driver": "jcdrv", "variant": "asan", "script": cmds}
